@@ -131,6 +131,9 @@ def c12(run, model):
 
 def c01(run, model):
     _mol_run(run, model, {"K4", "K5", "K6", "K7", "C01"}, 6, 20, exhaustive=(4, 5), completeness=True)
+    # descriptions as molfile texts (V2000 / V3000, renumbered, relisted, bonds reversed), incl. three-digit atom numbers
+    import text_checks
+    text_checks.c01_descriptions(run, model)
 
 
 def c02(run, model):
@@ -180,6 +183,23 @@ def label_variants(am, rng):
     return out
 
 
+def element_variants(am, rng):
+    """siblings that differ in the element of one atom, the other element being easy to confuse with it: symbol with the
+    same initial letter (Ti/Te/Tl, Hg/Hf/Ho/He, Cl/Cm/Cn ...) or the neighbour in the periodic table"""
+    out = []
+    n = am.n()
+    if not n:
+        return out
+    for i in rng.sample(range(n), min(n, 2)):
+        sym = impl.SYM[am.zs[i]]
+        same_initial = [z for z, s_ in impl.SYM.items() if s_[0] == sym[0] and z != am.zs[i]]
+        cands = rng.sample(same_initial, min(2, len(same_initial))) + [z for z in (am.zs[i] - 1, am.zs[i] + 1) if 1 <= z <= 118][:1]
+        for z in cands:
+            zs = list(am.zs); zs[i] = z
+            out.append(AM(zs, am.edges, am.mass, am.rad, "variant:element"))
+    return out
+
+
 def random_like(rng):
     import random as _r
     return _r.Random(rng.random())
@@ -193,6 +213,13 @@ def near_misses(rng):
             yield am
             for v in label_variants(am, rng):
                 yield v
+            for v in element_variants(am, rng):
+                yield v
+    # molecules made of easily confused elements (shared initial letters), with a sibling each
+    for syms in (["Ti", "Cl"], ["Te", "Cl"], ["Th", "Cl"], ["Hg", "C", "Cl"], ["Hf", "C", "H"], ["Db", "O"], ["Dy", "O"], ["Ta", "F"], ["Tl", "F"]):
+        zof = {v: k for k, v in impl.SYM.items()}
+        zs = [zof[syms[0]]] + [zof[x] for x in syms[1:] for _ in range(2)]
+        yield AM(zs, [(0, j) for j in range(1, len(zs))], {}, {}, "nearmiss:confusable-elements")
     sk = gens.SKELETONS
     for a, b in (("shrikhande", "rook4x4"), ("ring12", "ring6+ring6"), ("2xring4", "ring8"), ("prism3", "K33"), ("cube", "2xK4")):
         for name in (a, b):
@@ -233,7 +260,7 @@ SPECS = {
                       "payload and bond datum kept in place. Mutation/aliasing of Python objects cannot be exhibited by a pure model: decided by deep before/after comparison on the implementation.",
                 note=NOTE_MODEL, design_ref="DESIGN.md 4.12",
                 rule="same stream; deep before/after comparison of the argument object, tracer-based attribute and bond-data carrying, repeated calls; non-trivial as for C13"),
-    "C01": dict(fn=c01, level="proof", components=["K4", "K5", "K6", "K7"], assumptions=MOL_ASSUME,
+    "C01": dict(fn=c01, level="proof", components=["K4", "K5", "K6", "K7", "K1", "K2"], assumptions=MOL_ASSUME,
                 claim="Theorem tucan_invariant: for every oracle meeting the bliss contract (H1, H2), any two descriptions of one molecule (renaming, listing orders, bond orientation, payload) "
                       "give the same string; proved through label independence of the refinement, uniqueness of the canonical view, and serialize_depends_on_view_only "
                       "(worklist traversal, sort by Z, Hill formula, tuples, attribute blocks read the graph only through sorted / order-independent views). Unbounded in size and relabelling.",
@@ -350,7 +377,7 @@ def replay(run, model, rp):
     if not hit:
         print("replay file names no failing input: ", json.dumps(rp.get("broken")))
         return 1
-    if (hit.get("case") or {}).get("kind") == "C05-text":
+    if (hit.get("case") or {}).get("kind") in ("C05-text", "C01-text"):
         import text_checks
         if text_checks.replay_text(run, model, hit):
             print("VIOLATION property=%s replay=%s" % (rp["property"], "(replayed)"))
